@@ -171,6 +171,7 @@ func vfRunCrashPoint(t *testing.T, spec *vfSpec, res *vfRes) {
 		}
 
 		var w *vfWork
+		var lateDeadlineStream *Stream
 		farDeadline := 40 * time.Minute
 		parkTransferCallers := func() {
 			a := sim.getAssoc(side)
@@ -189,6 +190,11 @@ func vfRunCrashPoint(t *testing.T, spec *vfSpec, res *vfRes) {
 
 					return err
 				})
+			}
+			// a stream with an armed read deadline and no reader parked: the deadline expires after the teardown
+			if st, err := a.OpenStream(503, PayloadTypeWebRTCBinary); err == nil {
+				_ = st.SetReadDeadline(time.Now().Add(30 * time.Second))
+				lateDeadlineStream = st
 			}
 			if spec.A.BlockWrite {
 				if st, err := a.OpenStream(502, PayloadTypeWebRTCBinary); err == nil {
@@ -403,9 +409,49 @@ func vfRunCrashPoint(t *testing.T, spec *vfSpec, res *vfRes) {
 			}
 		}
 		ps.mu.Unlock()
+		// a read deadline that expires after the teardown must not bring the stream back to life: reads keep
+		// failing at once, also after the deadline is cleared
+		if lateDeadlineStream != nil {
+			time.Sleep(40 * time.Second)
+			for round := 0; round < 2; round++ {
+				rd := make(chan error, 1)
+				go func() {
+					_, _, err := lateDeadlineStream.ReadSCTP(make([]byte, 64))
+					rd <- err
+				}()
+				select {
+				case err := <-rd:
+					if err == nil {
+						res.violate("C09", "late-deadline/read-ok", "%s: ReadSCTP on a stream of a closed association returned data", kind)
+					}
+				case <-time.After(5 * time.Second):
+					res.violate("C09", fmt.Sprintf("late-deadline/read-blocks/%d", round), "%s: after the association was closed (%s) and the stream's read deadline expired, ReadSCTP blocks (round %d: %s)", kind, action, round, []string{"deadline expired", "deadline cleared"}[round])
+					_ = lateDeadlineStream.SetReadDeadline(time.Now())
+					<-rd
+				}
+				_ = lateDeadlineStream.SetReadDeadline(time.Time{})
+			}
+			res.count("c09_late_deadline_cases", 1)
+		}
 		// read-deadline goroutines legitimately live until their instant
 		time.Sleep(farDeadline + time.Minute)
 		sim.finalLeakCheck()
+		// all timers stop: none of the association's timers may still be armed after teardown
+		for sd := 0; sd < 2; sd++ {
+			a := sim.getAssoc(sd)
+			if a == nil {
+				continue
+			}
+			for name, tm := range map[string]*rtxTimer{"T1-init": a.t1Init, "T1-cookie": a.t1Cookie, "T2-shutdown": a.t2Shutdown, "T3-rtx": a.t3RTX, "reconfig": a.tReconfig} {
+				res.count("c09_timers_checked", 1)
+				if tm != nil && tm.isRunning() {
+					res.violate("C09", "timer-running/"+name, "%s: the %s timer of side %d is still armed after the association was closed (action %s on side %d, state at fire %d)", kind, name, sd, action, side, stateAtFire)
+				}
+			}
+			if a.ackTimer != nil && a.ackTimer.isRunning() {
+				res.violate("C09", "timer-running/ack", "%s: the delayed-ack timer of side %d is still armed after the association was closed", kind, sd)
+			}
+		}
 		for sd := 0; sd < 2; sd++ {
 			if n := sim.net.conns[sd].writesAfterCloseN(); n > 0 {
 				res.violate("C09", "write-after-close", "%s: side %d called Write %d time(s) on its transport after Close of the transport had completed", kind, sd, n)
